@@ -181,8 +181,113 @@ let clause_name = function
   | CSharedKeyQuery -> "shared_key_query" | CTransparent -> "transparent"
   | CWriteErr -> "write_error_private" | CRegistry -> "registry_clean"
 
+(* ---- the size-hint table (coq/C11/ModelHint.v), harness mode subtab:
+     (c11h (shards n) (reqs (EFK fk sf len)...) (trace (CMD (i STATUS)...)...) (final (i RES hint)...) (sizes (EFK count total)...))
+   CMD: (start i) = GetOrCreateItem of leader i, incl. the hint read; (ans i ok|empty) = its load returns len / no bytes;
+        (pub i) = the LoadOrStore(empty entry) of i's Finish (harness-owned parking point, see harness/cmd/c11/hint.go);
+        (rel i) = the (rest of the) real Finish.  EFK = effective table key (fetch kind, shard).
+   Replayed on [Hint.step true]; statuses, hints and the final table contents must agree; [hint_spec_b] runs on the
+   implementation's outcomes. *)
+let hint_vis (s : Hint.state) (i : int) : string =
+  match (Hint.act s (nat_of_int i)).Hint.h_pc with
+  | Hint.PStart -> "new" | Hint.PWork -> "(at load)" | Hint.PFin0 -> "(at fin)" | Hint.PRec -> "(at finp)"
+  | Hint.PDone -> "(ret (done))" | Hint.PPanic -> "(ret (panic))" | Hint.PAvg | Hint.PFin1 -> "hidden"
+
+let handle_hint (rs : sexp list) (trace : sexp list) (final : sexp list) (sizes : sexp list) : (string * string) list =
+  let reqs = List.map (function
+      | L [A efk; A _; A _; A len] -> (int_of_string efk, int_of_string len)
+      | _ -> raise (Sexp_error "hint req")) rs in
+  let n = List.length reqs in
+  let fkeys = List.map (fun (k, _) -> n_of_int k) reqs in
+  let stp = Hint.step true fkeys in
+  let res = ref [] in
+  let nontrivial = ref false in
+  (try
+    let s = ref Hint.init in
+    let seen = Array.make n "new" in
+    let hstep what i =
+      match stp !s (Hint.HStep (nat_of_int i)) with
+      | Some s' -> s := s'
+      | None -> raise (Corr (Printf.sprintf "the model does not allow %s" what)) in
+    let pc i = (Hint.act !s (nat_of_int i)).Hint.h_pc in
+    List.iter (fun item ->
+      match item with
+      | L (L [A "inapplicable"; c] :: _) | L [A "inapplicable"; c] ->
+        raise (Corr ("command not applicable on the implementation: " ^ print_sexp c))
+      | L (cmd :: changes) ->
+        List.iter (fun ch -> match ch with
+          | L [A i; st] -> seen.(int_of_string i) <- (match st with
+              | L [A "ret"; L (A "panic" :: _)] -> "(ret (panic))"
+              | _ -> print_sexp st)
+          | _ -> raise (Sexp_error "change")) changes;
+        let what = print_sexp cmd in
+        (match cmd with
+         | L [A "start"; A i] ->
+           let i = int_of_string i in
+           (match Hint.tbl !s (Hint.fk fkeys (nat_of_int i)) with
+            | Some e when e.Hint.e_count = Z0 -> nontrivial := true | _ -> ());
+           hstep what i; if pc i = Hint.PAvg then hstep what i
+         | L [A "ans"; A i; A k] ->
+           let i = int_of_string i in
+           let len = if k = "ok" then snd (List.nth reqs i) else 0 in
+           (match stp !s (Hint.HAns (nat_of_int i, z_of_int len)) with
+            | Some s' -> s := s' | None -> raise (Corr ("the model does not allow " ^ what)))
+         | L [A "pub"; A i] ->
+           let i = int_of_string i in
+           hstep what i;
+           if pc i <> Hint.PFin1 then raise (Corr (what ^ ": the entry already exists in the model"));
+           hstep what i
+         | L [A "rel"; A i] ->
+           let i = int_of_string i in
+           let fuel = ref 4 in
+           while pc i <> Hint.PDone && !fuel > 0 do decr fuel; hstep what i done
+         | _ -> raise (Sexp_error ("command: " ^ what)));
+        for k = 0 to n - 1 do
+          let mv = hint_vis !s k in
+          if mv <> seen.(k) then raise (Corr (Printf.sprintf "after %s actor %d: impl=%s model=%s" what k seen.(k) mv))
+        done
+      | _ -> raise (Sexp_error "trace item")) trace;
+    List.iter (function
+        | L [A i; _; A h] ->
+          let i = int_of_string i in
+          let mh = int_of_z (Hint.act !s (nat_of_int i)).Hint.h_hint in
+          if mh <> int_of_string h then raise (Corr (Printf.sprintf "size hint of actor %d: impl=%s model=%d" i h mh))
+        | _ -> raise (Sexp_error "final")) final;
+    let keys = List.sort_uniq compare (List.map fst reqs) in
+    List.iter (fun k ->
+        let impl = List.find_map (function
+            | L [A k'; A c; A t] when int_of_string k' = k -> Some (int_of_string c, int_of_string t) | _ -> None) sizes in
+        let model = (match Hint.tbl !s (n_of_int k) with
+            | Some e -> Some (int_of_z e.Hint.e_count, int_of_z e.Hint.e_total) | None -> None) in
+        if impl <> model then
+          let sh = function Some (c, t) -> Printf.sprintf "(count %d total %d)" c t | None -> "absent" in
+          raise (Corr (Printf.sprintf "size entry of key %d: impl=%s model=%s" k (sh impl) (sh model)))) keys
+  with Corr msg -> res := ("mismatch", "corr:C11/size-hint " ^ msg) :: !res);
+  let os = List.mapi (fun i f -> match f with
+      | L [A _; r; A h] ->
+        { ho_res = (match r with L [A "done"] -> HRDone | A "none" -> HRNone | _ -> HRPanic);
+          ho_hint = z_of_int (int_of_string h); ho_len = z_of_int (snd (List.nth reqs i)) }
+      | _ -> raise (Sexp_error "final")) final in
+  let szs = List.filter_map (function
+      | L [A _; A c; A t] -> Some (z_of_int (int_of_string c), z_of_int (int_of_string t)) | _ -> None) sizes in
+  (match hint_spec_b os szs with
+   | None -> ()
+   | Some (i, c) ->
+     let i = int_of_nat i in
+     let detail = (match List.nth_opt final i with Some f -> print_sexp f | None -> "") in
+     let cn = (match c with HCNoPanic -> "no_panic" | HCReturns -> "each_returns" | HCHintMean -> "hint_is_mean"
+                          | HCWindow -> "hint_window") in
+     res := ("specfail", Printf.sprintf "%s size-hint actor %d %s" cn i
+               (if c = HCWindow then "entries " ^ String.concat " " (List.map print_sexp sizes) else detail)) :: !res);
+  if !res = [] then [("ok", if !nontrivial then "nt" else "tr")] else List.rev !res
+
 let handle (x : sexp) : (string * string) list =
   match x with
+  | L [A "c11h"; L [A "shards"; _]; L (A "reqs" :: rs); L (A "trace" :: trace); L (A "final" :: final); L (A "sizes" :: sizes)] ->
+    handle_hint rs trace final sizes
+  | L [A "c11s"; L [A "iters"; A it]; L [A "workers"; A w]; L [A "panics"; A p; msg]] ->
+    if int_of_string p = 0 then [("ok", "nt stress")]
+    else [("specfail", Printf.sprintf "no_panic size-hint stress: %s of %s iterations with %s concurrent leaders panicked, first: %s" p it w (print_sexp msg))]
   | L [A "c11"; A mode; L (A "reqs" :: rs); L (A "trace" :: trace); L (A "final" :: final); L [A "reg"; A reg]] ->
     let reg = int_of_string reg in
     let reqs = List.map (fun r -> match r with
